@@ -707,6 +707,15 @@ def mkOp (x : CS) (toks : List String) : Prog OpOut :=
     | some a => if s.arenas.contains a then do dropArenaC; pure (.text s!"r=ok droparenarec {a}") else pure (.text "r=nohandle")
     | none => pure (.text "bad-op")
   | ["refs"] => do let v ← load .refs "refs" 0; pure (.text s!"r=ok val={v}")
+  -- arena-level readers: ONE load of the cursor, then the bounds check and the read against that value
+  | ["rd", ty, ord, off] =>
+    match parseTy ty, parseOrder ord, off.toNat? with
+    | some _, some _, some _ => do let al ← load .alloc "allocated" 0; pure (.text s!"rdrec {ty} {ord} {off} {al}")
+    | _, _, _ => pure (.text "bad-op")
+  | ["rd_var", ty, off] =>
+    match parseTy ty, off.toNat? with
+    | some _, some _ => do let al ← load .alloc "allocated" 0; pure (.text s!"rdvrec {ty} {off} {al}")
+    | _, _ => pure (.text "bad-op")
   | _ => pure (.text "bad-op")
 
 /-- apply the table effects of a completed operation and produce its `res` text -/
@@ -725,6 +734,21 @@ def finishOp (x : CS) (o : OpOut) : CS × String :=
         let ok := (List.range hd.mt.ptrSize).all (fun k => x.sh.st.mem.rd (hd.mt.ptrOff + k) == b.toNat)
         (x, s!"r=ok v={if ok then 1 else 0}")
       | _, _ => (x, "r=ok v=1")
+    | ["rdrec", ty, ord, off, al] =>
+      match parseTy ty, parseOrder ord with
+      | some t, some o =>
+        match rdFixed (x.sh.st.image x.sess.cfg) al.toNat! off.toNat! t o with
+        | .ok v => (x, s!"r=ok val={v} ref={v}")
+        | .error _ => (x, "r=OutOfBounds")
+      | _, _ => (x, "bad-op")
+    | ["rdvrec", ty, off, al] =>
+      match parseTy ty with
+      | some t =>
+        match rdVarint (x.sh.st.image x.sess.cfg) al.toNat! off.toNat! t with
+        | .ok (n, v) => (x, s!"r=ok n={n} val={v}")
+        | .error .outOfBounds => (x, "r=OutOfBounds")
+        | .error .varint => (x, "r=Varint")
+      | none => (x, "bad-op")
     | ["r=ok", "clonerec", a] => ({ x with sess := { x.sess with arenas := a.toNat! :: x.sess.arenas } }, "r=ok")
     | ["r=ok", "droparenarec", a] => ({ x with sess := { x.sess with arenas := x.sess.arenas.erase a.toNat! } }, "r=ok")
     | _ => (x, t)
